@@ -559,6 +559,19 @@ parse_basic (const char *str)
   return NULL;
 }
 
+/* TRUE if @str starts with the type name @name and the name ends there:
+ * "GLib.List" and "GLib.List<utf8>" do, "GLib.ListStore" does not.
+ */
+static gboolean
+has_type_name (const char *str,
+	       const char *name)
+{
+  gsize len = strlen (name);
+
+  return strncmp (str, name, len) == 0 &&
+    !(g_ascii_isalnum (str[len]) || str[len] == '_');
+}
+
 static GIrNodeType *
 parse_type_internal (GIrModule *module,
 		     const gchar *str,
@@ -624,8 +637,8 @@ parse_type_internal (GIrModule *module,
 
   if (basic != NULL)
     /* found a basic type */;
-  else if (g_str_has_prefix (str, "GLib.List") ||
-	   g_str_has_prefix (str, "GLib.SList"))
+  else if (has_type_name (str, "GLib.List") ||
+	   has_type_name (str, "GLib.SList"))
     {
       str += strlen ("GLib.");
       if (g_str_has_prefix (str, "List"))
@@ -643,7 +656,7 @@ parse_type_internal (GIrModule *module,
 	  str += strlen ("SList");
 	}
     }
-  else if (g_str_has_prefix (str, "GLib.HashTable"))
+  else if (has_type_name (str, "GLib.HashTable"))
     {
       str += strlen ("GLib.");
 
@@ -652,7 +665,7 @@ parse_type_internal (GIrModule *module,
       type->is_pointer = TRUE;
       str += strlen ("HashTable");
     }
-  else if (g_str_has_prefix (str, "GLib.Error"))
+  else if (has_type_name (str, "GLib.Error"))
     {
       g_assert (str != NULL);  /* silence compiler error */
       str += strlen ("GLib.");
